@@ -44,6 +44,8 @@ def peer_spec(case, lists=None, sizes=None):
     if any(k.startswith('diffie-hellman-group-exchange') for k in lists['kex']):
         spec['moduli'] = [sizes['gex']]
         spec['gex_style'] = sizes.get('gex_style', 'roundup')
+        if sizes.get('chatty'):
+            spec['chatter'] = {'gex_group': sizes['chatty'], 'kexdh_reply': sizes['chatty'], 'gex_reply': 1}      # debug messages in front of the replies
         if sizes.get('gex_sha1') is not None:
             spec['moduli_by_alg'] = {GEX: [sizes['gex']], GEX1: [sizes['gex_sha1']]}      # separate groups per algorithm
     return spec
@@ -95,7 +97,14 @@ def perturbations(case):
             if cert in RSA_CERTS:
                 for d in (+1024, -6, -1):
                     yield ('cert-host-size%+d-%s' % (d, cert[:12]), 'Host key (%s) sizes' % cert, L, dict(S, cert_host=S['cert_host'] + d))
-    if GEX in L['kex']:
+    if GEX in L['kex'] and S.get('gex_style') == 'strict':
+        # a server that insists on its own groups can only be measured at the sizes the tool asks for: the drift is to a neighbouring one of those
+        nine = [512, 768, 1024, 1536, 2048, 3072, 4096, 6144, 8192]
+        i = nine.index(S['gex'])
+        for j in (i - 1, i + 1):
+            if 0 <= j < len(nine) and nine[j] <= 4096:
+                yield ('gex-size%+d' % (nine[j] - S['gex']), 'Group exchange (%s) modulus sizes' % GEX, L, dict(S, gex=nine[j]))
+    elif GEX in L['kex']:
         for d in (+1024, -1024):
             if S['gex'] + d >= (2048 if S.get('gex_style') == 'openssh' else 1024):      # an OpenSSH-style server never hands out less than 2048
                 yield ('gex-size%+d' % d, 'Group exchange (%s) modulus sizes' % GEX, L, dict(S, gex=S['gex'] + d))
@@ -243,7 +252,16 @@ def strat_peer():
                 'sizes': {'rsa': rsa, 'ca': ca, 'ca_type': ca_type, 'cert_host': cert_host, 'gex': gex, 'gex_style': 'openssh' if (ca + gex) % 2048 == 0 else 'roundup', 'gex_sha1': ([3072, 4096, 2048][(rsa // 1024) % 3] if both else None)}}
         case['banner'] = ['SSH-2.0-OpenSSH_9.6', 'SSH-2.0-OpenSSH_for_Windows_8.1', 'SSH-2.0-OpenSSH_8.9p1 Ubuntu-3ubuntu0.1', 'SSH-2.0-dropbear_2022.83', 'SSH-1.99-OpenSSH_7.4', 'SSH-2.0-OpenSSH'][(rsa // 1024 + ca // 1024 * 3 + cert_host // 1024 + len(kex)) % 6]
         if 'OpenSSH' not in case['banner']:
-            case['sizes']['gex_style'] = 'roundup'       # (the 2048-bit fallback is OpenSSH's; only there does the tool look behind it)
+            case['sizes']['gex_style'] = 'roundup'
+        if (rsa + gex) % 4096 == 0:
+            case['sizes']['chatty'] = 2 + (ca // 1024) % 2
+        if probe_kex == GEX and ca % 3072 == 0:
+            # a legacy server: group exchange is what the host-key probes run over, and its groups are small ones it insists on
+            case['banner'] = 'SSH-2.0-dropbear_2012.55'
+            case['sizes']['gex'] = [1024, 1536][(rsa // 1024) % 2]
+            case['sizes']['gex_style'] = 'strict'
+            case['sizes']['gex_sha1'] = None
+            case['lists']['kex'] = [k for k in case['lists']['kex'] if k != GEX1]       # (the 2048-bit fallback is OpenSSH's; only there does the tool look behind it)
         if (rsa + ca + gex) % 3072 == 0:
             # the other direction advertises something else (peers may list different algorithms per direction)
             case['enc_c'] = case['lists']['enc'][::-1] + ['aes128-ctr']
